@@ -48,7 +48,16 @@ type node struct {
 	dom   []any
 	cSize int
 
-	o *ordf
+	o   *ordf
+	mkO func() *ordf // constructs the library's instance anew (nil for the harness's own byShow)
+	// history family: three freshly built operands, and a write into the referent of a value in
+	// place (same address, contents chosen by pick); see hist.go
+	hv        func() []any
+	mut       func(v any, pick int) bool
+	histOps   []histOp
+	mutable   bool
+	histMemo  string
+	histKnown bool
 	// want is the structural demand on sign(Compare(a,b)): native order for Given/Time,
 	// lexicographic over the component instances for Seq/Slice/Tuple/HCons, the component's
 	// answer for Some/Some, non-nil/non-nil and ContraMap, the flipped sign for Reversed, the
@@ -69,10 +78,15 @@ type node struct {
 	known bool
 }
 
+// inst is the typed shell: a FACTORY of the library's instance, so that every construction of an
+// enclosing instance constructs its components anew.
 type inst[T any] struct {
-	n *node
-	o fp.Ord[T]
+	n  *node
+	mk func() fp.Ord[T]
 }
+
+// val wraps an instance that is a package variable of the library (there is only one).
+func val[T any](o fp.Ord[T]) func() fp.Ord[T] { return func() fp.Ord[T] { return o } }
 
 func sign(c int) int {
 	switch {
@@ -109,9 +123,42 @@ func newNode(head string, dom []any, same, equiv func(a, b any) bool, show func(
 	return n
 }
 
-func finish[T any](n *node, o fp.Ord[T]) *inst[T] {
-	n.o = erase(o)
-	return &inst[T]{n, o}
+func finish[T any](n *node, mk func() fp.Ord[T]) *inst[T] {
+	n.mkO = func() *ordf { return erase(mk()) }
+	n.o = n.mkO()
+	return &inst[T]{n, mk}
+}
+
+// baseHV: the history operands of an immutable base type: x, xa, y and a fourth value z used as
+// the contents written into referents; z is chosen (by the native reference order) so that it is
+// not between x and y: writing it over x or over y then flips the order of the pair.
+func (n *node) baseHV() func() []any {
+	z := n.y
+	if n.want != nil {
+		sxy, _ := n.want(n.x, n.y)
+		for _, r := range n.rest {
+			sxr, _ := n.want(n.x, r)
+			sry, _ := n.want(r, n.y)
+			if sxr != 0 && sry != 0 && (sxr != sxy || sry != sxy) {
+				z = r
+				break
+			}
+		}
+	}
+	return func() []any { return []any{n.x, n.xa, n.y, z} }
+}
+
+// refresh constructs the instance of n and of every component anew. The law family does it at the
+// start of every execution: no instance outlives an execution (an instance that carried hidden
+// state would otherwise make replays diverge); the structural demands (want) read the components'
+// current instances.
+func (n *node) refresh() {
+	for _, k := range n.kids {
+		k.refresh()
+	}
+	if n.mkO != nil {
+		n.o = n.mkO()
+	}
 }
 
 // pickRepresentatives chooses x, xa (same value as x in a different representation if the
@@ -162,6 +209,7 @@ func (n *node) at(k int) any {
 // law is the whole oracle for one triple; "" = holds.
 func (n *node) law(ia, ib, ic int) (law, msg string) {
 	a, b, c := n.dom[ia], n.dom[ib], n.dom[ic]
+	n.refresh() // instances constructed for this execution
 	o := n.o
 	sa, sb, sc := n.show(a), n.show(b), n.show(c)
 	defer func() {
@@ -225,6 +273,7 @@ func (n *node) law(ia, ib, ic int) (law, msg string) {
 // Compare agrees, and the sign is the one the structure demands.
 func (n *node) lawLite(ia, ib int) (law, msg string) {
 	a, b := n.dom[ia], n.dom[ib]
+	n.refresh()
 	sa, sb := n.show(a), n.show(b)
 	defer func() {
 		if r := recover(); r != nil {
@@ -348,7 +397,8 @@ func given[T fp.ImplicitOrd](tname string, dom []T) *inst[T] {
 	eqT := func(a, b any) bool { return a.(T) == b.(T) }
 	n := newNode("Given["+tname+"]", anys(dom), eqT, eqT, showNum)
 	n.want, n.wantLaw = nativeWant[T](), "native-order"
-	return finish(n, ord.Given[T]())
+	n.hv = n.baseHV()
+	return finish(n, ord.Given[T])
 }
 
 func timeSign(a, b any) (int, int) {
@@ -370,13 +420,15 @@ func baseTime() *inst[time.Time] {
 	n := newNode("Time", anys(dom), eqT, eqT,
 		func(v any) string { return v.(time.Time).Format(time.RFC3339Nano) })
 	n.want, n.wantLaw = timeSign, "native-order"
-	return finish[time.Time](n, ord.Time)
+	n.hv = n.baseHV()
+	return finish[time.Time](n, val[time.Time](ord.Time))
 }
 
 func baseHNil() *inst[hlist.Nil] {
 	n := newNode("HNil", anys([]hlist.Nil{{}, hlist.Empty()}), func(a, b any) bool { return true }, func(a, b any) bool { return true }, func(any) string { return "HNil" })
 	n.want, n.wantLaw = func(a, b any) (int, int) { return 0, exact }, "native-order"
-	return finish(n, ord.HNil)
+	n.hv = n.baseHV()
+	return finish(n, val(ord.HNil))
 }
 
 // ---------- combinators: the typed part only converts between T and its components ----------
@@ -435,7 +487,18 @@ func optionOf[T any](k *inst[T]) *inst[fp.Option[T]] {
 	}
 	n := newNode("Option", dom, optSame(k.n, get, false), optSame(k.n, get, true), optShow(k.n, get, "None", "Some(", ")"), k.n)
 	n.want, n.wantLaw = optWant(k.n, get), "component-order"
-	return finish(n, ord.Option(k.o))
+	n.hv = func() []any {
+		var out []any
+		for _, v := range k.n.hv() {
+			out = append(out, fp.Some(v.(T)))
+		}
+		return out
+	}
+	n.mut = func(v any, pick int) bool {
+		e, ok := get(v)
+		return ok && k.n.doMut(e, pick)
+	}
+	return finish(n, func() fp.Ord[fp.Option[T]] { return ord.Option(k.mk()) })
 }
 
 func ptrTo[T any](v any) any { t := v.(T); return &t }
@@ -456,7 +519,22 @@ func ptrOf[T any](k *inst[T]) *inst[*T] {
 	}
 	n := newNode("Ptr", dom, optSame(kn, get, false), optSame(kn, get, true), optShow(kn, get, "nil", "&", ""), kn)
 	n.want, n.wantLaw = optWant(kn, get), "component-order"
-	return finish(n, ord.Ptr(lazy.Call(func() fp.Ord[T] { return k.o })))
+	n.hv = func() []any { // two pointers to equal targets, one to a different target
+		var out []any
+		for _, v := range kn.hv() {
+			out = append(out, ptrTo[T](v))
+		}
+		return out
+	}
+	n.mut = func(v any, pick int) bool { // *p = y or z of the pointee type (same address)
+		p := v.(*T)
+		if p == nil {
+			return false
+		}
+		*p = kn.hv()[2+pick].(T) // y or z of the pointee type
+		return true
+	}
+	return finish(n, func() fp.Ord[*T] { return ord.Ptr(lazy.Call(k.mk)) })
 }
 
 // lexWant: first position where the component instance sees a difference decides; a proper
@@ -524,6 +602,23 @@ func aliasingSlices[T any](k *node) [][]T {
 	return [][]T{nil, {}, base[:2], {x, y}, base, base[:1], base[1:], {y, x}, {xa}, {xa, y}}
 }
 
+// histSlices: a view base[:2], an independent copy of it and the longer view base, freshly built
+func histSlices[T any](k *node) [][]T {
+	kv := k.hv()
+	x, xa, y, z := kv[0].(T), kv[1].(T), kv[2].(T), kv[3].(T)
+	base := []T{x, y, xa}
+	return [][]T{base[:2], {x, y}, base, {z, y}}
+}
+
+// writeFirst: s[0] = y or z of the element type (same array, new contents)
+func writeFirst[T any](k *node, s []T, pick int) bool {
+	if len(s) == 0 {
+		return false
+	}
+	s[0] = k.hv()[2+pick].(T) // y or z of the element type
+	return true
+}
+
 func (n *node) pickAliasing() {
 	d := n.dom
 	n.x, n.xa, n.y = d[2], d[3], d[4]
@@ -540,7 +635,15 @@ func seqOf[T any](k *inst[T]) *inst[fp.Seq[T]] {
 	n := newNode("Seq", dom, lexSame(kid, split, false), lexSame(kid, split, true), lexShow(kid, split, "[", " ", "]", func(v any) bool { return v.(fp.Seq[T]) == nil }), k.n)
 	n.pickAliasing()
 	n.want, n.wantLaw = lexWant(kid, split), "lexicographic"
-	return finish(n, ord.Seq(k.o))
+	n.hv = func() []any {
+		var out []any
+		for _, sl := range histSlices[T](k.n) {
+			out = append(out, fp.Seq[T](sl))
+		}
+		return out
+	}
+	n.mut = func(v any, pick int) bool { return writeFirst[T](k.n, v.(fp.Seq[T]), pick) }
+	return finish(n, func() fp.Ord[fp.Seq[T]] { return ord.Seq(k.mk()) })
 }
 
 func sliceOf[T any](k *inst[T]) *inst[[]T] {
@@ -550,14 +653,29 @@ func sliceOf[T any](k *inst[T]) *inst[[]T] {
 	n := newNode("Slice", dom, lexSame(kid, split, false), lexSame(kid, split, true), lexShow(kid, split, "[", " ", "]", func(v any) bool { return v.([]T) == nil }), k.n)
 	n.pickAliasing()
 	n.want, n.wantLaw = lexWant(kid, split), "lexicographic"
-	return finish(n, ord.Slice(k.o))
+	n.hv = func() []any { return anys(histSlices[T](k.n)) }
+	n.mut = func(v any, pick int) bool { return writeFirst[T](k.n, v.([]T), pick) }
+	return finish(n, func() fp.Ord[[]T] { return ord.Slice(k.mk()) })
 }
 
 func prodNode(head string, dom []any, split func(any) []any, open, sep, close string, kids ...*node) *node {
 	kid := func(j int) *node { return kids[j] }
 	n := newNode(head, dom, lexSame(kid, split, false), lexSame(kid, split, true), lexShow(kid, split, open, sep, close, nil), kids...)
 	n.want, n.wantLaw = lexWant(kid, split), "lexicographic"
+	n.mut = prodMut(kids, split)
 	return n
+}
+
+// prodMut passes a write to the first component that has a mutable referent.
+func prodMut(kids []*node, split func(any) []any) func(v any, pick int) bool {
+	return func(v any, pick int) bool {
+		for j, c := range split(v) {
+			if j < len(kids) && kids[j].doMut(c, pick) {
+				return true
+			}
+		}
+		return false
+	}
 }
 
 func tuple1Of[T any](k *inst[T]) *inst[fp.Tuple1[T]] {
@@ -566,7 +684,15 @@ func tuple1Of[T any](k *inst[T]) *inst[fp.Tuple1[T]] {
 		dom = append(dom, as.Tuple1(v.(T)))
 	}
 	split := func(v any) []any { return []any{v.(fp.Tuple1[T]).I1} }
-	return finish(prodNode("Tuple1", dom, split, "(", ",", ")", k.n), ord.Tuple1(k.o))
+	n := prodNode("Tuple1", dom, split, "(", ",", ")", k.n)
+	n.hv = func() []any {
+		var out []any
+		for _, v := range k.n.hv() {
+			out = append(out, as.Tuple1(v.(T)))
+		}
+		return out
+	}
+	return finish(n, func() fp.Ord[fp.Tuple1[T]] { return ord.Tuple1(k.mk()) })
 }
 
 var pairShapes = [][2]int{{0, 0}, {0, 1}, {1, 0}, {0, 2}, {2, 0}, {2, 2}, {1, 2}, {2, 1}}
@@ -577,7 +703,16 @@ func tuple2Of[T any](k *inst[T]) *inst[fp.Tuple2[T, T]] {
 		dom = append(dom, as.Tuple2(k.n.at(sh[0]).(T), k.n.at(sh[1]).(T)))
 	}
 	split := func(v any) []any { t := v.(fp.Tuple2[T, T]); return []any{t.I1, t.I2} }
-	return finish(prodNode("Tuple2", dom, split, "(", ",", ")", k.n, k.n), ord.Tuple2(k.o, k.o))
+	n := prodNode("Tuple2", dom, split, "(", ",", ")", k.n, k.n)
+	n.hv = func() []any {
+		var out []any
+		a, b := k.n.hv(), k.n.hv()
+		for i := range a {
+			out = append(out, as.Tuple2(a[i].(T), b[i].(T)))
+		}
+		return out
+	}
+	return finish(n, func() fp.Ord[fp.Tuple2[T, T]] { return ord.Tuple2(k.mk(), k.mk()) })
 }
 
 func hconsOf[T any](k *inst[T], nilI *inst[hlist.Nil]) *inst[hlist.Cons[T, hlist.Nil]] {
@@ -586,7 +721,15 @@ func hconsOf[T any](k *inst[T], nilI *inst[hlist.Nil]) *inst[hlist.Cons[T, hlist
 		dom = append(dom, hlist.Concat(v.(T), hlist.Empty()))
 	}
 	split := func(v any) []any { c := v.(hlist.Cons[T, hlist.Nil]); return []any{c.Head(), hlist.Tail(c)} }
-	return finish(prodNode("HCons", dom, split, "", "::", "", k.n, nilI.n), ord.HCons(k.o, nilI.o))
+	n := prodNode("HCons", dom, split, "", "::", "", k.n, nilI.n)
+	n.hv = func() []any {
+		var out []any
+		for _, v := range k.n.hv() {
+			out = append(out, hlist.Concat(v.(T), hlist.Empty()))
+		}
+		return out
+	}
+	return finish(n, func() fp.Ord[hlist.Cons[T, hlist.Nil]] { return ord.HCons(k.mk(), nilI.mk()) })
 }
 
 // box is the source type of ContraMap / GivenField: tag is ignored by the getter, so boxes with
@@ -609,11 +752,19 @@ func boxNode[T any](head string, k *node) *node {
 	n := newNode(head, dom, same, equiv, show, k)
 	n.want = func(a, b any) (int, int) { return sign(k.o.compare(a.(box[T]).v, b.(box[T]).v)), exact }
 	n.wantLaw = "component-order"
+	n.hv = func() []any {
+		var out []any
+		for i, v := range k.hv() {
+			out = append(out, box[T]{v.(T), i})
+		}
+		return out
+	}
+	n.mut = func(v any, pick int) bool { return k.doMut(v.(box[T]).v, pick) }
 	return n
 }
 
 func contraMapOf[T any](k *inst[T]) *inst[box[T]] {
-	return finish(boxNode[T]("ContraMap", k.n), ord.ContraMap(k.o, unbox[T]))
+	return finish(boxNode[T]("ContraMap", k.n), func() fp.Ord[box[T]] { return ord.ContraMap(k.mk(), unbox[T]) })
 }
 
 func givenFieldOf[T fp.ImplicitOrd](k *inst[T]) *inst[box[T]] {
@@ -623,14 +774,14 @@ func givenFieldOf[T fp.ImplicitOrd](k *inst[T]) *inst[box[T]] {
 	nw := nativeWant[T]()
 	n.want = func(a, b any) (int, int) { return nw(a.(box[T]).v, b.(box[T]).v) }
 	n.wantLaw = "native-order"
-	return finish(n, ord.GivenField(unbox[T]))
+	return finish(n, func() fp.Ord[box[T]] { return ord.GivenField(unbox[T]) })
 }
 
 // ---------- instances derived from an instance of the same type ----------
 
 func (n *node) derived(head string, law string, want func(a, b any) (int, int), extraKids ...*node) *node {
 	d := &node{name: head + "(" + n.name + ")", head: head, depth: n.depth + 1, kids: append([]*node{n}, extraKids...), dom: n.dom, cSize: n.cSize,
-		want: want, wantLaw: law, same: n.same, equiv: n.equiv, show: n.show, x: n.x, xa: n.xa, y: n.y, rest: n.rest}
+		want: want, wantLaw: law, same: n.same, equiv: n.equiv, show: n.show, x: n.x, xa: n.xa, y: n.y, rest: n.rest, hv: n.hv, mut: n.mut}
 	return d
 }
 
@@ -644,15 +795,15 @@ func byShow[T any](n *node) fp.Ord[T] {
 func derive[T any](c *catalogue, k *inst[T], again bool) {
 	src := k.n
 	sameAs := func(a, b any) (int, int) { return sign(src.o.compare(a, b)), exact }
-	add := func(head, law string, want func(a, b any) (int, int), o fp.Ord[T], extraKids ...*node) *inst[T] {
+	add := func(head, law string, want func(a, b any) (int, int), o func() fp.Ord[T], extraKids ...*node) *inst[T] {
 		d := finish(src.derived(head, law, want, extraKids...), o)
 		c.add(d.n)
 		return d
 	}
-	add("New", "same-as-source", sameAs, ord.New[T](k.o, k.o.Less))
-	add("FromCompare", "same-as-source", sameAs, ord.FromCompare(k.o.Compare))
-	add("as.Ord", "same-as-source", sameAs, as.Ord(k.o.Less))
-	rev := add("Reversed", "flips", func(a, b any) (int, int) { return -sign(src.o.compare(a, b)), exact }, k.o.Reversed())
+	add("New", "same-as-source", sameAs, func() fp.Ord[T] { o := k.mk(); return ord.New[T](o, o.Less) })
+	add("FromCompare", "same-as-source", sameAs, func() fp.Ord[T] { return ord.FromCompare(k.mk().Compare) })
+	add("as.Ord", "same-as-source", sameAs, func() fp.Ord[T] { return as.Ord(k.mk().Less) })
+	rev := add("Reversed", "flips", func(a, b any) (int, int) { return -sign(src.o.compare(a, b)), exact }, func() fp.Ord[T] { return k.mk().Reversed() })
 	tb := byShow[T](src)
 	tbn := &node{name: "byShow", head: "harness.byShow", dom: src.dom, cSize: src.cSize, same: src.same, equiv: src.equiv, show: src.show, o: erase(tb)}
 	then := add("ThenComparing", "tie-break", func(a, b any) (int, int) {
@@ -660,11 +811,11 @@ func derive[T any](c *catalogue, k *inst[T], again bool) {
 			return s, exact
 		}
 		return sign(strings.Compare(src.show(a), src.show(b))), exact
-	}, k.o.ThenComparing(tb), tbn)
+	}, func() fp.Ord[T] { return k.mk().ThenComparing(tb) }, tbn)
 	then.n.name = "ThenComparing(" + src.name + ",byShow)"
 	// ThenComparing the instance itself and its reverse never changes the order
-	add("ThenComparing", "tie-break", sameAs, k.o.ThenComparing(k.o)).n.name = "ThenComparing(" + src.name + "," + src.name + ")"
-	add("ThenComparing", "tie-break", sameAs, k.o.ThenComparing(k.o.Reversed())).n.name = "ThenComparing(" + src.name + ",Reversed(" + src.name + "))"
+	add("ThenComparing", "tie-break", sameAs, func() fp.Ord[T] { return k.mk().ThenComparing(k.mk()) }).n.name = "ThenComparing(" + src.name + "," + src.name + ")"
+	add("ThenComparing", "tie-break", sameAs, func() fp.Ord[T] { return k.mk().ThenComparing(k.mk().Reversed()) }).n.name = "ThenComparing(" + src.name + ",Reversed(" + src.name + "))"
 	if again {
 		derive(c, rev, false)
 		derive(c, then, false)
